@@ -811,6 +811,7 @@ func Run(ctx *core.Ctx) {
 	defer sink.Close()
 	type job func()
 	var jobs []job
+	jobs = append(jobs, func() { getAreaHook(ctx, bin) })
 	for i := 0; i < ctx.Pick(8, 60); i++ {
 		i := i
 		jobs = append(jobs, func() { sequential(ctx, bin, i) })
@@ -844,4 +845,80 @@ func Run(ctx *core.Ctx) {
 		}(j)
 	}
 	wg.Wait()
+}
+
+// getAreaHook: a channel whose fence area was given as `GET key id`. The area
+// is resolved when the channel is set; the referenced object may change or go
+// away afterwards without touching the fence. After AOFSHRINK and a restart
+// the channel must still be there with the same area.
+func getAreaHook(ctx *core.Ctx, bin string) {
+	s, c, err := startWith(bin, []string{"T38_VERIF_POINTS=shrink.afterRemoveBak=yield:1"})
+	if err != nil {
+		ctx.Inconclusive(err.Error())
+		return
+	}
+	defer func() { s.Kill9() }()
+	defer c.Close()
+	poly := `{"type":"Polygon","coordinates":[[[0,0],[10,0],[10,10],[0,10],[0,0]]]}`
+	for _, cmd := range [][]string{
+		{"SET", "areas", "zone", "OBJECT", poly},
+		{"SET", "areas", "zone2", "OBJECT", poly},
+		{"SET", "gfleet", "t", "POINT", "5", "5"},
+		{"SETCHAN", "cget-deleted", "WITHIN", "gfleet", "FENCE", "GET", "areas", "zone"},
+		{"SETCHAN", "cget-kept", "WITHIN", "gfleet", "FENCE", "GET", "areas", "zone2"},
+		{"DEL", "areas", "zone"},
+	} {
+		if r, err := c.Do(cmd...); err != nil || r.IsErr() {
+			ctx.Inconclusive(fmt.Sprintf("get-area hook: %q: %v %s", cmd, err, r.String()))
+			return
+		}
+	}
+	names := func(addr string) (map[string]bool, error) {
+		d, err := dump.Take(addr, dump.Opts{})
+		if err != nil {
+			return nil, err
+		}
+		m := map[string]bool{}
+		for _, h := range d.Chans {
+			m[h.Name] = true
+		}
+		return m, nil
+	}
+	if r, err := c.Do("AOFSHRINK"); err != nil || r.IsErr() {
+		ctx.Inconclusive("get-area hook: AOFSHRINK failed")
+		return
+	}
+	if err := waitShrinkDone(c, 0, 60*time.Second); err != nil {
+		ctx.Inconclusive(err.Error())
+		return
+	}
+	live, err := names(s.Addr())
+	if err != nil {
+		ctx.Inconclusive(err.Error())
+		return
+	}
+	c.Close()
+	s.Term(20 * time.Second)
+	s2, err := s.Restart()
+	if err != nil {
+		ctx.Violation("restart-fails-after-shrink", "server does not start on the shrunk log (channel with a GET area): "+err.Error(), nil)
+		return
+	}
+	defer s2.Kill9()
+	after, err := names(s2.Addr())
+	if err != nil {
+		ctx.Inconclusive(err.Error())
+		return
+	}
+	ctx.Eval(1)
+	ctx.Distinct("sequential|get-area-hook")
+	for _, n := range []string{"cget-deleted", "cget-kept"} {
+		if live[n] && !after[n] {
+			what := "still exists"
+			if n == "cget-deleted" {
+				what = "was deleted afterwards"
+			}
+			ctx.Violation("shrink-loses-get-area-channel:"+n, fmt.Sprintf("channel %s (`WITHIN gfleet FENCE GET areas ...`, the referenced object %s) is served before and after AOFSHRINK and is gone after a restart on the shrunk log", n, what), map[string]any{"channel": n})
+		}
+	}
 }
